@@ -625,6 +625,22 @@ func (w *world) replicas() {
 			check("subprocess_env", d, p, halt)
 			w.rec.Fault("env.subprocess")
 		}
+		if int(uint64(w.cfg["keyseed"])%uint64(len(w.chains))) == c.idx {
+			// one chain per run is also re-executed by another operator's node (a node-local configuration)
+			reps, err := c.NodeConfigReplica(w.cfg["keyseed"] / 7)
+			if err != nil {
+				w.rec.HarnessFail("node-config replica: " + err.Error())
+				continue
+			}
+			w.rec.Fault("env.node_config")
+			for _, r := range reps {
+				if r.Class == "halt" {
+					w.rec.Violate("C14", "replica_halt", r.Kind, "replica (%s) of %s: %s", r.Kind, c.Cfg.Name, r.Detail)
+				} else {
+					w.rec.Violate("C14", "replica_divergence", r.Class, "replica (%s) of %s diverges: %s", r.Kind, c.Cfg.Name, r.Detail)
+				}
+			}
+		}
 		w.rec.SetNontrivial()
 		w.rec.ProbeN("replica.blocks", len(od))
 	}
